@@ -29,7 +29,7 @@ PATTERNS = ["*", "foo", "*.c", "src/*", "?ar", "[fb]*", "[!f]*", "[a-c]*", "a/b/
 PREFIXES = ["src", "out", "a/b", "dst", "pkg", "dst/src"]   # normalised: no trailing slash
 BAD = ["a**b", "[a", "**x", "x**", "[!", "a[", "***", "[]"]
 SIMPLE = ["CREATE", "DELETE", "MODIFY", "ALLOW", "REQUIRE", "DISALLOW"]
-STATES = ["absent", "material", "product", "unchanged", "modified"]
+STATES = ["absent", "material", "product", "unchanged", "modified", "modified_to_prefix", "modified_from_prefix"]
 CONTENT = {t: f"content-{t}\n" for t in range(8)}
 
 
@@ -74,6 +74,10 @@ def link_from_states(name, states):
         elif st == "modified":
             mats[n] = dg(4)
             prods[n] = dg(5)
+        elif st in ("modified_to_prefix", "modified_from_prefix"):
+            # one digest is the beginning of the other (an abbreviated digest): different digests, a modified artifact
+            full, short = dg(4), {k: v[:16] for k, v in dg(4).items()}
+            mats[n], prods[n] = (full, short) if st == "modified_to_prefix" else (short, full)
     return scen.mk_link(name, mats, prods, [], {}, None)
 
 
@@ -117,8 +121,11 @@ def rand_case(rng):
                         r_ = rng.random()
                         if r_ < 0.7:
                             tgt[v] = d
-                        elif r_ < 0.85:
+                        elif r_ < 0.8:
                             tgt[v] = dg(6)
+                        elif r_ < 0.87:
+                            # the beginning of the item's digest / an empty digest: unequal descriptions
+                            tgt[v] = {k: x[:rng.choice([0, 8, 32])] for k, x in d.items()}
                         else:
                             # agrees on the algorithm(s) the item recorded, but carries a further one (unequal descriptions)
                             tgt[v] = dict(d, sha512=hashlib.sha512(b"other").hexdigest())
@@ -320,7 +327,12 @@ def e2e(binpath, seed, n):
     res = common.Result()
     plans, reqs = [], []
     for i in range(n):
-        kind, item, links = rand_case(rng)
+        while True:
+            kind, item, links = rand_case(rng)
+            # an inspection's own artifacts are real files: only digests of real contents can be recorded for them
+            real = [dg(t) for t in CONTENT]
+            if kind == "step" or all(d in real for fld in ("materials", "products") for d in links["item"][fld].values()):
+                break
         # keep the pipeline's own stages out of the way
         refs = [r for r in links if r != "item"]
         steps = []
